@@ -12,3 +12,4 @@ INVARIANT ObsDrift
 POSTCONDITION Consumed
 CHECK_DEADLOCK FALSE
 CONSTANT KeyMergesWsIntoHttp = FALSE
+CONSTANT SetterDropsTls = FALSE
